@@ -24,43 +24,64 @@ Definition ev_log (tok : addr) (deny : list addr) (cst : cstate) (e : cev) : lis
 Definition is_note (e : cev) : bool :=
   match e with NTransferred _ _ _ | NCreated _ _ | NDestroyed _ _ => true | _ => false end.
 
-Lemma hook_notify_spec tok h e cst cst' :
-  hook_notify [tok] h e tok cst = Ok cst' ->
+(* the modules a question / notification of the token reaches *)
+Definition ev_mods (deny : list addr) (cst : cstate) (e : cev) : list addr :=
+  match e with
+  | QCanTransfer _ _ _ => asked deny (mods cst HCanTransfer)
+  | QCanCreate _ _ => asked deny (mods cst HCanCreate)
+  | NTransferred _ _ _ => mods cst HTransferred
+  | NCreated _ _ => mods cst HCreated
+  | NDestroyed _ _ => mods cst HDestroyed
+  | CBadToken => []
+  end.
+
+Lemma hook_notify_spec fail tok h e cst cst' :
+  hook_notify fail [tok] h e tok cst = Ok cst' ->
   mem tok (bound cst) = true /\ mods cst' = mods cst /\ bound cst' = bound cst /\
-  mlog cst' = mlog cst ++ map (fun m => (m, e)) (mods cst h).
+  mlog cst' = mlog cst ++ map (fun m => (m, e)) (mods cst h) /\
+  any_fail fail (mods cst h) = false.
 Proof.
-  unfold hook_notify, require_auth_from_bound_token. intros H.
-  destruct (has_auth [tok] tok); cbn [guard bind] in H; [|discriminate].
-  destruct (mem tok (bound cst)) eqn:B; cbn [guard bind] in H; [|discriminate].
-  injection H as <-. destruct (notify_all_spec (mods cst h) e cst) as (A1 & A2 & A3). auto.
+  intros H. apply hook_notify_ok in H. destruct H as (_ & B & F & ->).
+  destruct (notify_all_spec (mods cst h) e cst) as (A1 & A2 & A3). auto.
+Qed.
+Lemma ask_feed_spec fail deny ms e cst cst' :
+  (do bs <- ask_all_f fail deny ms e cst; Ok (snd bs)) = Ok cst' ->
+  any_fail fail (asked deny ms) = false /\ cst' = snd (ask_all deny ms e cst).
+Proof.
+  rewrite ask_all_f_eq. destruct (any_fail fail (asked deny ms)); cbn [bind]; [discriminate|].
+  intros H. injection H as <-. auto.
 Qed.
 
-Lemma feed_spec tok deny l : forall cst cst',
-  feed tok deny l cst = Ok cst' ->
+Lemma feed_spec tok fail deny l : forall cst cst',
+  feed tok fail deny l cst = Ok cst' ->
   mods cst' = mods cst /\ bound cst' = bound cst /\
   mlog cst' = mlog cst ++ flat_map (ev_log tok deny cst) l /\
-  (existsb is_note l = true -> mem tok (bound cst) = true).
+  (existsb is_note l = true -> mem tok (bound cst) = true) /\
+  (forall e, In e l -> any_fail fail (ev_mods deny cst e) = false).
 Proof.
   induction l as [|e r IH]; intros cst cst' H; cbn [feed] in H.
-  - injection H as <-. cbn. rewrite app_nil_r. repeat split; auto. discriminate.
-  - destruct (feed_event tok deny e cst) as [c1|] eqn:E; cbn [bind] in H; [|discriminate].
-    destruct (IH c1 cst' H) as (M & B & L & N).
+  - injection H as <-. cbn. rewrite app_nil_r. repeat split; auto. discriminate. intros e [].
+  - destruct (feed_event tok fail deny e cst) as [c1|] eqn:E; cbn [bind] in H; [|discriminate].
+    destruct (IH c1 cst' H) as (M & B & L & N & AL).
     assert (X : mods c1 = mods cst /\ bound c1 = bound cst /\ mlog c1 = mlog cst ++ ev_log tok deny cst e /\
-                (is_note e = true -> mem tok (bound cst) = true)).
-    { destruct e; cbn [feed_event ev_log is_note] in *.
-      - injection E as <-.
+                (is_note e = true -> mem tok (bound cst) = true) /\
+                any_fail fail (ev_mods deny cst e) = false).
+    { destruct e; cbn [feed_event ev_log is_note ev_mods] in *.
+      - apply ask_feed_spec in E. destruct E as (F & ->).
         destruct (ask_all_spec deny (mods cst HCanTransfer) (MCanTransfer from to amt tok) cst) as (_ & A & B' & C).
         repeat split; auto. discriminate.
-      - injection E as <-.
+      - apply ask_feed_spec in E. destruct E as (F & ->).
         destruct (ask_all_spec deny (mods cst HCanCreate) (MCanCreate to amt tok) cst) as (_ & A & B' & C).
         repeat split; auto. discriminate.
-      - apply hook_notify_spec in E. destruct E as (A & B' & C & D). auto.
-      - apply hook_notify_spec in E. destruct E as (A & B' & C & D). auto.
-      - apply hook_notify_spec in E. destruct E as (A & B' & C & D). auto.
+      - apply hook_notify_spec in E. destruct E as (A & B' & C & D & F). auto.
+      - apply hook_notify_spec in E. destruct E as (A & B' & C & D & F). auto.
+      - apply hook_notify_spec in E. destruct E as (A & B' & C & D & F). auto.
       - discriminate. }
-    destruct X as (M1 & B1 & L1 & N1).
+    destruct X as (M1 & B1 & L1 & N1 & F1).
     assert (EV : forall e', ev_log tok deny c1 e' = ev_log tok deny cst e').
     { intros e'. destruct e'; cbn [ev_log]; rewrite ?M1; reflexivity. }
+    assert (EM : forall e', ev_mods deny c1 e' = ev_mods deny cst e').
+    { intros e'. destruct e'; cbn [ev_mods]; rewrite ?M1; reflexivity. }
     repeat split.
     + congruence.
     + congruence.
@@ -68,18 +89,35 @@ Proof.
       apply flat_map_ext. exact EV.
     + cbn [existsb]. intros Q. apply orb_prop in Q. destruct Q as [Q|Q]; auto.
       rewrite <- B1. apply N. exact Q.
+    + intros e' [<-|He']; auto. rewrite <- EM. apply AL. exact He'.
 Qed.
 
 (* ------------------------------------------------------------------ *)
 (* the answers computed by the other two models                         *)
-Lemma orc_transfer univ cst deny w :
-  o_can_transfer (orc_of univ cst deny w) = all_approve deny (mods cst HCanTransfer).
-Proof. unfold orc_of. cbn [o_can_transfer]. apply ask_all_spec. Qed.
-Lemma orc_create univ cst deny w :
-  o_can_create (orc_of univ cst deny w) = all_approve deny (mods cst HCanCreate).
-Proof. unfold orc_of. cbn [o_can_create]. apply ask_all_spec. Qed.
-Lemma orc_verified univ cst deny w a :
-  idv_ok (orc_of univ cst deny w) a = true -> verified w a = true.
+Lemma answer_spec fail deny ms e cst :
+  answer (ask_all_f fail deny ms e cst) = negb (any_fail fail (asked deny ms)) && all_approve deny ms.
+Proof.
+  rewrite ask_all_f_eq. destruct (any_fail fail (asked deny ms)); cbn [answer negb andb]; auto.
+  destruct (ask_all deny ms e cst) as [b c1] eqn:E.
+  pose proof (ask_all_spec deny ms e cst) as (A & _). rewrite E in A. exact A.
+Qed.
+(* an approval = every registered module approves and none of them fails *)
+Lemma answer_true fail deny ms e cst :
+  answer (ask_all_f fail deny ms e cst) = true -> all_approve deny ms = true /\ any_fail fail ms = false.
+Proof.
+  rewrite answer_spec. intros H. apply andb_prop in H. destruct H as [H1 H2]. split; auto.
+  rewrite (asked_all _ _ H2) in H1. apply negb_true_iff in H1. exact H1.
+Qed.
+Lemma orc_transfer univ cst fail deny w :
+  o_can_transfer (orc_of univ cst fail deny w) = true ->
+  all_approve deny (mods cst HCanTransfer) = true /\ any_fail fail (mods cst HCanTransfer) = false.
+Proof. unfold orc_of. cbn [o_can_transfer]. apply answer_true. Qed.
+Lemma orc_create univ cst fail deny w :
+  o_can_create (orc_of univ cst fail deny w) = true ->
+  all_approve deny (mods cst HCanCreate) = true /\ any_fail fail (mods cst HCanCreate) = false.
+Proof. unfold orc_of. cbn [o_can_create]. apply answer_true. Qed.
+Lemma orc_verified univ cst fail deny w a :
+  idv_ok (orc_of univ cst fail deny w) a = true -> verified w a = true.
 Proof.
   unfold idv_ok, orc_of. cbn [o_verified]. intros H. apply existsb_exists in H. destruct H as (x & Hx & E).
   apply N.eqb_eq in E. subst x. apply filter_In in Hx. destruct Hx as [_ Hx]. rewrite verify_iff in Hx. exact Hx.
@@ -87,29 +125,50 @@ Qed.
 
 Ltac ands := repeat match goal with H : (_ && _) = true |- _ => apply andb_prop in H; destruct H end.
 
-Lemma sgates_of_gates lk la la' prev cur univ cst deny w pc o au r :
+Lemma sgates_of_gates lk la la' prev cur univ cst fail deny w pc o au r :
   (forall h, mods_of pc h = mods cst h) ->
-  gates_ok lk la la' prev cur (mkCall o au (fun _ => orc_of univ cst deny w)) r = true ->
+  gates_ok lk la la' prev cur (mkCall o au (fun _ => orc_of univ cst fail deny w)) r = true ->
   sgates_ok lk la la' w deny pc prev o au r = true.
 Proof.
   intros Hm G. unfold gates_ok, sgates_ok, gates_transfer, gates_mint, gates_recover, st_gate in *.
   cbn [c_op c_auths c_orc] in G.
-  change (eff_obs prev (mkCall o au (fun _ => orc_of univ cst deny w))) with
-    (mkOracle (o_verified (orc_of univ cst deny w)) (o_can_transfer (orc_of univ cst deny w))
-              (o_can_create (orc_of univ cst deny w)) (o_recovery (orc_of univ cst deny w))) in G.
-  change (idv_ok (mkOracle (o_verified (orc_of univ cst deny w)) (o_can_transfer (orc_of univ cst deny w))
-              (o_can_create (orc_of univ cst deny w)) (o_recovery (orc_of univ cst deny w))))
-    with (idv_ok (orc_of univ cst deny w)) in G.
+  change (eff_obs prev (mkCall o au (fun _ => orc_of univ cst fail deny w))) with
+    (mkOracle (o_verified (orc_of univ cst fail deny w)) (o_can_transfer (orc_of univ cst fail deny w))
+              (o_can_create (orc_of univ cst fail deny w)) (o_recovery (orc_of univ cst fail deny w))) in G.
+  change (idv_ok (mkOracle (o_verified (orc_of univ cst fail deny w)) (o_can_transfer (orc_of univ cst fail deny w))
+              (o_can_create (orc_of univ cst fail deny w)) (o_recovery (orc_of univ cst fail deny w))))
+    with (idv_ok (orc_of univ cst fail deny w)) in G.
   cbn [o_can_transfer o_can_create] in G.
   destruct o; auto.
-  - ands. rewrite Hm, <- (orc_transfer univ cst deny w).
+  - ands. rewrite Hm. match goal with H : o_can_transfer _ = true |- _ => apply orc_transfer in H; destruct H as [H _]; rewrite H end.
     repeat (apply andb_true_intro; split); auto; eapply orc_verified; eauto.
-  - ands. rewrite Hm, <- (orc_transfer univ cst deny w).
+  - ands. rewrite Hm. match goal with H : o_can_transfer _ = true |- _ => apply orc_transfer in H; destruct H as [H _]; rewrite H end.
     repeat (apply andb_true_intro; split); auto; eapply orc_verified; eauto.
-  - ands. rewrite Hm, <- (orc_create univ cst deny w).
+  - ands. rewrite Hm. match goal with H : o_can_create _ = true |- _ => apply orc_create in H; destruct H as [H _]; rewrite H end.
     repeat (apply andb_true_intro; split); auto; eapply orc_verified; eauto.
   - destruct r as [moved|]; [|discriminate]. ands.
     repeat (apply andb_true_intro; split); auto. eapply orc_verified; eauto.
+Qed.
+
+(* the gate answers of the compliance model, out of the token monitor's gate clause *)
+Lemma approvals_of_gates lk la la' prev cur univ cst fail deny w o au r :
+  gates_ok lk la la' prev cur (mkCall o au (fun _ => orc_of univ cst fail deny w)) r = true ->
+  match o with
+  | Transfer _ _ _ | TransferFrom _ _ _ _ =>
+      all_approve deny (mods cst HCanTransfer) = true /\ any_fail fail (mods cst HCanTransfer) = false
+  | Mint _ _ _ => all_approve deny (mods cst HCanCreate) = true /\ any_fail fail (mods cst HCanCreate) = false
+  | _ => True
+  end.
+Proof.
+  intros G. unfold gates_ok, gates_transfer, gates_mint in G. cbn [c_op c_auths c_orc] in G.
+  change (eff_obs prev (mkCall o au (fun _ => orc_of univ cst fail deny w))) with
+    (mkOracle (o_verified (orc_of univ cst fail deny w)) (o_can_transfer (orc_of univ cst fail deny w))
+              (o_can_create (orc_of univ cst fail deny w)) (o_recovery (orc_of univ cst fail deny w))) in G.
+  cbn [o_can_transfer o_can_create] in G.
+  destruct o; auto; ands.
+  - match goal with H : o_can_transfer _ = true |- _ => apply orc_transfer in H; exact H end.
+  - match goal with H : o_can_transfer _ = true |- _ => apply orc_transfer in H; exact H end.
+  - match goal with H : o_can_create _ = true |- _ => apply orc_create in H; exact H end.
 Qed.
 
 (* ------------------------------------------------------------------ *)
@@ -193,11 +252,11 @@ Proof.
 Qed.
 
 (* a failing token call in the stack *)
-Lemma stok_fail cf univ tok s cst o au deny w :
+Lemma stok_fail cf univ tok s cst o au deny fail w :
   Inv s -> CInv cf cst ->
   wf_call univ (mkCall o au (fun _ => mkOracle [] false false (w_recovered w))) = true ->
   smon_step cf univ tok (sobserve univ tok (mkSS s cst))
-    (SI (STok o au deny w) Fail (sobserve univ tok (mkSS (clear_logs s) (cclear cst)))) = true.
+    (SI (STokF o au deny fail w) Fail (sobserve univ tok (mkSS (clear_logs s) (cclear cst)))) = true.
 Proof.
   intros HI HC Hwf. unfold smon_step, sobserve. cbn [so_tok so_cmp si_obs si_call si_out ss_tok ss_cmp is_ok].
   rewrite (shape_ok cf univ tok (clear_logs s) (cclear cst) HI HC). cbn [andb].
@@ -211,20 +270,20 @@ Lemma eqb_entries_refl l : eqb_list eqb_entry l l = true.
 Proof. apply eqb_list_refl. apply eqb_entry_refl. Qed.
 
 (* a successful token call in the stack *)
-Lemma stok_ok hc cf univ tok s cst o au deny w s1 r c1 :
+Lemma stok_ok hc cf univ tok s cst o au deny fail w s1 r c1 :
   Inv s -> CInv cf cst ->
   wf_call univ (mkCall o au (fun _ => mkOracle [] false false (w_recovered w))) = true ->
-  step hc s (mkCall o au (fun _ => orc_of univ (cclear cst) deny w)) = (s1, Ok r) ->
-  feed tok deny (cmp_log s1) (cclear cst) = Ok c1 ->
+  step hc s (mkCall o au (fun _ => orc_of univ (cclear cst) fail deny w)) = (s1, Ok r) ->
+  feed tok fail deny (cmp_log s1) (cclear cst) = Ok c1 ->
   smon_step cf univ tok (sobserve univ tok (mkSS s cst))
-    (SI (STok o au deny w) (Ok r) (sobserve univ tok (mkSS s1 c1))) = true.
+    (SI (STokF o au deny fail w) (Ok r) (sobserve univ tok (mkSS s1 c1))) = true.
 Proof.
   intros HI HC Hwf Hs Hf.
   pose proof (stok_frames hc univ s o au _ _ s1 (Ok r) Hwf Hs) as FR.
-  set (c0 := mkCall o au (fun _ => orc_of univ (cclear cst) deny w)) in *.
+  set (c0 := mkCall o au (fun _ => orc_of univ (cclear cst) fail deny w)) in *.
   assert (HI1 : Inv s1).
   { pose proof (step_preserves_Inv hc s c0 HI) as P. rewrite Hs in P. exact P. }
-  destruct (feed_spec tok deny _ _ _ Hf) as (FM & FB & FL & FN).
+  destruct (feed_spec tok fail deny _ _ _ Hf) as (FM & FB & FL & FN & FA).
   cbn [mods bound mlog cclear] in FM, FB, FL, FN.
   assert (HC1 : CInv cf c1) by (apply (CInv_ext cf cst c1 FM FB HC)).
   destruct (step_logs hc s c0 s1 (Ok r) HI Hs) as [Hlog _].
@@ -239,13 +298,31 @@ Proof.
               HI HS HA HA' eq_refl eq_refl eq_refl eq_refl eq_refl eq_refl eq_refl Hx) as (G & A & P & _).
   assert (Hm : forall h, mods_of (cobserve [tok] cst) h = mods (cclear cst) h).
   { intros h. rewrite mods_of_observe. reflexivity. }
-  pose proof (sgates_of_gates _ _ _ _ _ univ (cclear cst) deny w (cobserve [tok] cst) o au r Hm G) as SG.
+  pose proof (sgates_of_gates _ _ _ _ _ univ (cclear cst) fail deny w (cobserve [tok] cst) o au r Hm G) as SG.
+  pose proof (approvals_of_gates _ _ _ _ _ univ (cclear cst) fail deny w o au r G) as AP.
+  assert (NF : none_fails fail (cobserve [tok] cst) o r = true).
+  { unfold none_fails. rewrite Hlog in FA. unfold expected_cmp_log in FA. cbn [c_op c0] in FA.
+    assert (Hm' : forall h, mods_of (cobserve [tok] cst) h = mods cst h) by (intros h; apply mods_of_observe).
+    destruct o; cbn [hooks_of forallb]; rewrite ?Hm'; auto.
+    - destruct AP as [_ AP]. cbn [mods cclear] in AP. rewrite AP.
+      pose proof (FA (NTransferred from to amt) ltac:(cbn; auto)) as F1. cbn [ev_mods mods cclear] in F1. rewrite F1. reflexivity.
+    - destruct AP as [_ AP]. cbn [mods cclear] in AP. rewrite AP.
+      pose proof (FA (NTransferred from to amt) ltac:(cbn; auto)) as F1. cbn [ev_mods mods cclear] in F1. rewrite F1. reflexivity.
+    - destruct AP as [_ AP]. cbn [mods cclear] in AP. rewrite AP.
+      pose proof (FA (NCreated to amt) ltac:(cbn; auto)) as F1. cbn [ev_mods mods cclear] in F1. rewrite F1. reflexivity.
+    - pose proof (FA (NDestroyed a amt) ltac:(cbn; auto)) as F1. cbn [ev_mods mods cclear] in F1. rewrite F1. reflexivity.
+    - pose proof (FA (NTransferred from to amt) ltac:(cbn; auto)) as F1. cbn [ev_mods mods cclear] in F1. rewrite F1. reflexivity.
+    - destruct (recover_step hc s c0 old new operator s1 r HI eq_refl Hs) as (_ & _ & -> & _).
+      destruct (bal s old =? 0) eqn:Z0; cbn [negb hooks_of forallb]; auto.
+      rewrite ?Hm'. pose proof (FA (NTransferred old new (bal s old)) ltac:(cbn; auto)) as F1.
+      cbn [ev_mods mods cclear] in F1. rewrite F1. reflexivity. }
   unfold smon_step, sobserve. cbn [so_tok so_cmp si_obs si_call si_out ss_tok ss_cmp is_ok].
   rewrite (shape_ok cf univ tok s1 c1 HI1 HC1). cbn [andb].
   cbn [is_ok] in FR. rewrite FR. cbn [andb].
   rewrite (cmp_unchanged_ext tok cst c1 FM FB). cbn [andb].
   cbn [strip observe ob_accts ob_allow ob_paused].
   replace (sgates_ok _ _ _ w deny (cobserve [tok] cst) _ o au r) with true by (symmetry; exact SG).
+  rewrite NF.
   cbn [andb].
   rewrite (accts_ok_model _ (mkCall o au (fun _ => mkOracle [] false false (w_recovered w))) r s s1 A univ). cbn [andb].
   replace (Bool.eqb (paused s1) (paused_after _ _)) with true
@@ -288,14 +365,14 @@ Lemma smon_step_model hc cf univ tok s cst c ss' o :
   Inv (ss_tok ss') /\ CInv cf (ss_cmp ss').
 Proof.
   intros HI HC Hwf H. unfold sstep in H. cbn [ss_tok ss_cmp] in H.
-  destruct c as [op au deny w|cc|]; cbn [swf] in Hwf.
-  - destruct (step hc s (mkCall op au (fun _ => orc_of univ (cclear cst) deny w))) as [s1 out] eqn:Hs.
+  destruct c as [op au deny fail w|cc|]; cbn [swf] in Hwf.
+  - destruct (step hc s (mkCall op au (fun _ => orc_of univ (cclear cst) fail deny w))) as [s1 out] eqn:Hs.
     destruct out as [r|].
-    + destruct (feed tok deny (cmp_log s1) (cclear cst)) as [c1|] eqn:Hf.
+    + destruct (feed tok fail deny (cmp_log s1) (cclear cst)) as [c1|] eqn:Hf.
       * injection H as <- <-. cbn [ss_tok ss_cmp]. split; [|split].
         { eapply stok_ok; eauto. }
-        { pose proof (step_preserves_Inv hc s (mkCall op au (fun _ => orc_of univ (cclear cst) deny w)) HI) as P. rewrite Hs in P. exact P. }
-        { destruct (feed_spec tok deny _ _ _ Hf) as (FM & FB & _). apply (CInv_ext cf cst c1 FM FB HC). }
+        { pose proof (step_preserves_Inv hc s (mkCall op au (fun _ => orc_of univ (cclear cst) fail deny w)) HI) as P. rewrite Hs in P. exact P. }
+        { destruct (feed_spec tok fail deny _ _ _ Hf) as (FM & FB & _). apply (CInv_ext cf cst c1 FM FB HC). }
       * injection H as <- <-. cbn [ss_tok ss_cmp]. split; [|split]; auto. apply stok_fail; auto.
     + injection H as <- <-. cbn [ss_tok ss_cmp]. split; [|split]; auto. apply stok_fail; auto.
   - destruct (cstep cf cst cc) as [c1 out] eqn:Hc. injection H as <- <-. cbn [ss_tok ss_cmp].
@@ -350,53 +427,75 @@ Qed.
    parties verified per the registry observed before the call, every module registered for
    CanTransfer approving, the token bound - and each registered module was asked / notified
    exactly once with the exact parties, amount and token *)
-Theorem stack_gate : forall hc cf univ tok s cst o au deny w ss' r,
+Theorem stack_gate : forall hc cf univ tok s cst o au deny fail w ss' r,
   Inv s -> CInv cf cst ->
-  sstep hc cf univ tok (mkSS s cst) (STok o au deny w) = (ss', Ok r) ->
+  sstep hc cf univ tok (mkSS s cst) (STokF o au deny fail w) = (ss', Ok r) ->
   match o with
   | Transfer from to amt | TransferFrom _ from to amt =>
       paused s = false /\ aflag s from = false /\ aflag s to = false /\
       0 <= amt <= bal s from - frozen s from /\
       verified w from = true /\ verified w to = true /\
-      (forall m, In m (mods cst HCanTransfer) -> ~ In m deny) /\
+      (forall m, In m (mods cst HCanTransfer) -> ~ In m deny /\ ~ In m fail) /\
+      (forall m, In m (mods cst HTransferred) -> ~ In m fail) /\
       In tok (bound cst) /\
       mlog (ss_cmp ss') = map (fun m => (m, MCanTransfer from to amt tok)) (mods cst HCanTransfer)
                           ++ map (fun m => (m, MOnTransfer from to amt tok)) (mods cst HTransferred)
   | Mint to amt _ =>
       0 <= amt /\ verified w to = true /\
-      (forall m, In m (mods cst HCanCreate) -> ~ In m deny) /\
+      (forall m, In m (mods cst HCanCreate) -> ~ In m deny /\ ~ In m fail) /\
+      (forall m, In m (mods cst HCreated) -> ~ In m fail) /\
       In tok (bound cst) /\
       mlog (ss_cmp ss') = map (fun m => (m, MCanCreate to amt tok)) (mods cst HCanCreate)
                           ++ map (fun m => (m, MOnCreated to amt tok)) (mods cst HCreated)
+  | Burn a amt _ =>
+      (forall m, In m (mods cst HDestroyed) -> ~ In m fail) /\ In tok (bound cst) /\
+      mlog (ss_cmp ss') = map (fun m => (m, MOnDestroyed a amt tok)) (mods cst HDestroyed)
+  | ForcedTransfer from to amt _ =>
+      (forall m, In m (mods cst HTransferred) -> ~ In m fail) /\ In tok (bound cst) /\
+      mlog (ss_cmp ss') = map (fun m => (m, MOnTransfer from to amt tok)) (mods cst HTransferred)
   | _ => True
   end.
 Proof.
-  intros hc cf univ tok s cst o au deny w ss' r HI HC H.
+  intros hc cf univ tok s cst o au deny fail w ss' r HI HC H.
   unfold sstep in H. cbn [ss_tok ss_cmp] in H.
-  destruct (step hc s (mkCall o au (fun _ => orc_of univ (cclear cst) deny w))) as [s1 out] eqn:Hs.
+  destruct (step hc s (mkCall o au (fun _ => orc_of univ (cclear cst) fail deny w))) as [s1 out] eqn:Hs.
   destruct out as [r1|]; [|discriminate].
-  destruct (feed tok deny (cmp_log s1) (cclear cst)) as [c1|] eqn:Hf; [|discriminate].
+  destruct (feed tok fail deny (cmp_log s1) (cclear cst)) as [c1|] eqn:Hf; [|discriminate].
   injection H as <- <-. cbn [ss_cmp].
   pose proof (gates_thm hc s _ s1 r1 Hs) as G. cbn [c_op] in G.
   unfold eff_orc, idv_ok in G. cbn [c_orc o_verified o_can_transfer o_can_create] in G.
-  change (fun a => existsb (N.eqb a) (o_verified (orc_of univ (cclear cst) deny w))) with (idv_ok (orc_of univ (cclear cst) deny w)) in G.
+  change (fun a => existsb (N.eqb a) (o_verified (orc_of univ (cclear cst) fail deny w))) with (idv_ok (orc_of univ (cclear cst) fail deny w)) in G.
   destruct (step_logs hc s _ s1 (Ok r1) HI Hs) as [Hlog _].
-  destruct (feed_spec tok deny _ _ _ Hf) as (_ & _ & FL & FN).
-  rewrite Hlog in FL, FN. unfold expected_cmp_log in FL, FN. cbn [c_op mlog cclear app mods bound] in FL, FN.
+  destruct (feed_spec tok fail deny _ _ _ Hf) as (_ & _ & FL & FN & FA).
+  rewrite Hlog in FL, FN, FA. unfold expected_cmp_log in FL, FN, FA. cbn [c_op mlog cclear app mods bound] in FL, FN, FA.
   assert (Hall : forall l, all_approve deny l = true -> forall m, In m l -> ~ In m deny).
   { intros l Hl m Hm. unfold all_approve in Hl. rewrite forallb_forall in Hl. specialize (Hl m Hm).
     apply negb_true_iff in Hl. apply mem_false. exact Hl. }
+  assert (Hnf : forall l, any_fail fail l = false -> forall m, In m l -> ~ In m fail).
+  { intros l Hl. apply any_fail_false. exact Hl. }
   destruct o; auto.
-  - destruct G as (A & B & C & D & E & F & K & _). rewrite orc_transfer in K. cbn [mods cclear] in K.
+  - destruct G as (A & B & C & D & E & F & K & _). apply orc_transfer in K. destruct K as [K KF]. cbn [mods cclear] in K, KF.
     cbn [flat_map ev_log app existsb is_note orb mods cclear] in FL, FN.
     rewrite asked_all, app_nil_r in FL by exact K.
-    repeat split; auto; try lia; try (eapply orc_verified; eauto); try (apply (Hall _ K)); try (apply mem_In; apply FN; reflexivity).
-  - destruct G as (A & B & C & D & E & F & K & _). rewrite orc_transfer in K. cbn [mods cclear] in K.
+    pose proof (FA (NTransferred from to amt) ltac:(cbn; auto)) as F1. cbn [ev_mods mods cclear] in F1.
+    repeat split; auto; try lia; try (eapply orc_verified; eauto); try (apply (Hall _ K); assumption);
+      try (apply (Hnf _ KF); assumption); try (apply (Hnf _ F1)); try (apply mem_In; apply FN; reflexivity).
+  - destruct G as (A & B & C & D & E & F & K & _). apply orc_transfer in K. destruct K as [K KF]. cbn [mods cclear] in K, KF.
     cbn [flat_map ev_log app existsb is_note orb mods cclear] in FL, FN.
     rewrite asked_all, app_nil_r in FL by exact K.
-    repeat split; auto; try lia; try (eapply orc_verified; eauto); try (apply (Hall _ K)); try (apply mem_In; apply FN; reflexivity).
-  - destruct G as (A & E & K & _). rewrite orc_create in K. cbn [mods cclear] in K.
+    pose proof (FA (NTransferred from to amt) ltac:(cbn; auto)) as F1. cbn [ev_mods mods cclear] in F1.
+    repeat split; auto; try lia; try (eapply orc_verified; eauto); try (apply (Hall _ K); assumption);
+      try (apply (Hnf _ KF); assumption); try (apply (Hnf _ F1)); try (apply mem_In; apply FN; reflexivity).
+  - destruct G as (A & E & K & _). apply orc_create in K. destruct K as [K KF]. cbn [mods cclear] in K, KF.
     cbn [flat_map ev_log app existsb is_note orb mods cclear] in FL, FN.
     rewrite asked_all, app_nil_r in FL by exact K.
-    repeat split; auto; try (eapply orc_verified; eauto); try (apply (Hall _ K)); try (apply mem_In; apply FN; reflexivity).
+    pose proof (FA (NCreated to amt) ltac:(cbn; auto)) as F1. cbn [ev_mods mods cclear] in F1.
+    repeat split; auto; try (eapply orc_verified; eauto); try (apply (Hall _ K); assumption);
+      try (apply (Hnf _ KF); assumption); try (apply (Hnf _ F1)); try (apply mem_In; apply FN; reflexivity).
+  - cbn [flat_map ev_log app existsb is_note orb mods cclear] in FL, FN. rewrite app_nil_r in FL.
+    pose proof (FA (NDestroyed a amt) ltac:(cbn; auto)) as F1. cbn [ev_mods mods cclear] in F1.
+    repeat split; auto; try (apply (Hnf _ F1)); try (apply mem_In; apply FN; reflexivity).
+  - cbn [flat_map ev_log app existsb is_note orb mods cclear] in FL, FN. rewrite app_nil_r in FL.
+    pose proof (FA (NTransferred from to amt) ltac:(cbn; auto)) as F1. cbn [ev_mods mods cclear] in F1.
+    repeat split; auto; try (apply (Hnf _ F1)); try (apply mem_In; apply FN; reflexivity).
 Qed.
